@@ -26,11 +26,66 @@ Fixpoint eqb_results (a b : list res) : bool :=
   | _, _ => false
   end.
 
+(* the interleaved-system event of a client operation (a manual Cleanup runs unserialised in the
+   harness and Keys / Stop do not touch the map: no event) *)
+Definition op_ev (o : op) : option cev :=
+  match o with
+  | OSet k v ttl => Some (CSet k v ttl)
+  | OGet k => Some (CGet k)
+  | ODelete k => Some (CDelete k)
+  | OReset => Some CReset
+  | OAdvance d => Some (CAdvance d)
+  | OCleanup | OKeys | OStop => None
+  end.
+
+Definition lin_events (lin : list op) : list cev :=
+  flat_map (fun o => match op_ev o with Some e => [e] | None => [] end) lin.
+
+(* the observed results of the operations that have an event *)
+Fixpoint client_obs (lin : list op) (obs : list res) : list res :=
+  match lin, obs with
+  | o :: t, r :: rs => match op_ev o with
+                       | Some _ => r :: client_obs t rs
+                       | None => client_obs t rs
+                       end
+  | _, _ => []
+  end.
+
+(* every observed hit is the model's hit (an observed miss is not compared: the cleanup race) *)
+Fixpoint hits_agree (obs model : list res) : bool :=
+  match obs, model with
+  | [], [] => true
+  | RGet (Some v) :: a, m :: b => res_eqb (RGet (Some v)) m && hits_agree a b
+  | _ :: a, _ :: b => hits_agree a b
+  | _, _ => false
+  end.
+
+Fixpoint pairs_eqb (a b : list (bool * bool)) : bool :=
+  match a, b with
+  | [], [] => true
+  | (x1, x2) :: a', (y1, y2) :: b' => Bool.eqb x1 y1 && Bool.eqb x2 y2 && pairs_eqb a' b'
+  | _, _ => false
+  end.
+
 Definition model_agrees (c : case) : bool :=
   match c with
   | CSeq maxttl ops obs _ _ => eqb_results (results maxttl 0 ops) obs
-  | CConc _ _ _ _ _ => true   (* the schedule of the cleaner is not observed: oracle only *)
-  | CStops _ _ => true          (* the schedule of the callers is not observed: oracle only *)
+  | CConc maxttl lin obs _ _ =>
+      (* the cleaner's schedule is not observed, so results cannot be compared one to one; but
+         cleanups only remove entries: every observed hit must be the hit of the interleaved
+         model run on the same client operations with no cleanup at all *)
+      match ctrace maxttl (cinit 0) (lin_events lin) with
+      | Some (_, rs) => hits_agree (client_obs lin obs) rs
+      | None => false
+      end
+  | CStops calls late =>
+      (* the callers' schedule is not observed; the observation is compared with what the
+         life-cycle model yields on the schedule of the scenario (cleaner inside a pass, all calls
+         overlapping) for the same number of calls *)
+      match lcollect linit false (stops_schedule (length calls)) with
+      | Some (mc, ml) => pairs_eqb calls mc && Bool.eqb late ml
+      | None => false
+      end
   end.
 
 Definition oracle (c : case) : bool :=
@@ -46,3 +101,13 @@ Definition check_case (c : case) : Z :=
   if negb (oracle c) then 2 else if negb (model_agrees c) then 1 else 0.
 
 Definition run_cases (cs : list (Z * case)) : list (Z * Z) := failures check_case cs.
+
+(* What the property text demands of a whole case, declaratively ([oracle c = true <-> case_spec c],
+   ProofsOracle.v). *)
+Definition case_spec (c : case) : Prop :=
+  match c with
+  | CSeq maxttl ops obs sr ce => trace_spec true maxttl ops obs /\ sr = true /\ ce = true
+  | CConc maxttl lin obs sr ce => trace_spec false maxttl lin obs /\ sr = true /\ ce = true
+  | CStops calls late =>
+      (forall sr ce, In (sr, ce) calls -> sr = true /\ ce = true) /\ late = false
+  end.
